@@ -73,7 +73,26 @@ def _digits_only(m):
     raise ValueError('only one of read_two_char/read_four_char checks digits')
 
 
+SLURM = 'src/slurm.rs'
+PDU = 'src/rtr/pdu.rs'
+
+
+def _drop_all(m):
+    body = m.group(1)
+    has_p = bool(re.search(r'for \w+ in &self\.prefix\b', body)) or 'self.prefix.iter()' in body
+    has_b = bool(re.search(r'for \w+ in &self\.bgpsec\b', body)) or 'self.bgpsec.iter()' in body
+    has_a = 'self.aspa' in body
+    if has_p and has_b and has_a:
+        return True
+    if has_p and not has_b and not has_a:
+        return False
+    raise ValueError('drop_payload shape not recognised')
+
+
 EXTRA = [
+    # ---- C15
+    ('slurmDropAllKinds', SLURM, r'impl ValidationOutputFilters \{[\s\S]*?pub fn drop_payload\(&self, payload: &rtr::Payload\) -> bool \{([\s\S]*?)\n    \}', _drop_all, ['C15']),
+    ('aspaMaxCount', PDU, r'impl ProviderAsns \{[\s\S]*?pub const MAX_COUNT: usize = (\d+);', 'nat', ['C15', 'C07', 'C06']),
     # ---- C17
     ('utcPivot', X509, r'Tag::UTC_TIME => \{[\s\S]*?let year = if year >= (\d+) \{ year \+ 1900 \}\s*else \{ year \+ 2000 \};', 'nat', ['C17']),
     ('utcPivotOpt', X509, r'take_opt_primitive_if\(Tag::UTC_TIME, \|prim\| \{[\s\S]*?let year = if year >= (\d+) \{ year \+ 1900 \}\s*else \{ year \+ 2000 \};', 'nat', ['C17']),
